@@ -72,7 +72,24 @@ def counts(d):
 
 
 def project(kind, obj, el):
-    """Real object -> observation record (private state for drift, public value for the contract)."""
+    """Real object -> observation record (private state for drift, public value for the contract).
+    If the private fields are not where this harness expects them (refactored code) only the public
+    value is recorded and the private part is marked (nid = -1) so that it shows up as drift."""
+    try:
+        return _project(kind, obj, el)
+    except (AttributeError, TypeError, KeyError, IndexError):
+        o = {"has": True, "nid": -1, "cnt": [0] * NRMAX, "neg": [0] * NRMAX, "reg": [], "ent": [[] for _ in el],
+             "keys": [], "seq": 0}
+        if kind in ("G", "PN"):
+            o["val"] = int(obj.value)
+        elif kind == "LWW":
+            o["val"] = "none" if obj.value is None else obj.value
+        else:
+            o["val"] = sorted(enc_elem(e) for e in obj.value)
+        return o
+
+
+def _project(kind, obj, el):
     if obj is None:
         return {"has": False, "nid": 0, "cnt": [0] * NRMAX, "neg": [0] * NRMAX, "reg": [], "ent": [[] for _ in el],
                 "keys": [], "seq": 0, "val": 0}
